@@ -11,7 +11,7 @@ from rsscan import LostAnchor
 
 OBL_RE = re.compile(r"//\s*OBL\s+([A-Za-z0-9_.\-]+)")
 VERIF_ERR = (
-    "postcondition not satisfied", "precondition not met", "invariant not satisfied",
+    "postcondition not satisfied", "precondition not met", "precondition not satisfied", "invariant not satisfied",
     "assertion failed", "possible arithmetic underflow/overflow", "possible division by zero",
     "decreases not satisfied", "index out of bounds", "possible bit shift underflow/overflow",
     "recommendation not met", "loop invariant not satisfied", "invariant not satisfied at end of loop body",
